@@ -55,6 +55,8 @@ type FuncContract struct {
 // ReachClause: the statement with the given source text may be reached only
 // when the condition holds (a gate / dominance obligation).
 type ReachClause struct {
+	SetName string  // ghost variable assigned when the statement is passed ("" = none)
+	SetExpr *Clause // its new value
 	Nth    int // 0: every statement with this text; k>0: only the k-th in source order
 	Stmt   string
 	Clause *Clause
@@ -335,11 +337,30 @@ func parseContractFile(path, pkgPath string) (*ContractFile, error) {
 			if !strings.HasPrefix(cond, "only_if") {
 				return nil, fmt.Errorf("%s:%d: missing only_if", path, rl.line)
 			}
-			c, err := mk("reach", strings.TrimSpace(strings.TrimPrefix(cond, "only_if")))
+			condText := strings.TrimSpace(strings.TrimPrefix(cond, "only_if"))
+			// optional ghost update performed when the statement is passed:
+			//   only_if <expr> then ghost.<name> = <expr>
+			setName := ""
+			var setClause *Clause
+			if i := strings.Index(condText, " then ghost."); i >= 0 {
+				upd := strings.TrimSpace(condText[i+len(" then "):])
+				condText = strings.TrimSpace(condText[:i])
+				eq := strings.Index(upd, "=")
+				if eq < 0 {
+					return nil, fmt.Errorf("%s:%d: then ghost.<name> = <expr> expected", path, rl.line)
+				}
+				setName = strings.TrimSpace(strings.TrimPrefix(upd[:eq], "ghost."))
+				sc, err := mk("reach", strings.TrimSpace(upd[eq+1:]))
+				if err != nil {
+					return nil, err
+				}
+				setClause = sc
+			}
+			c, err := mk("reach", condText)
 			if err != nil {
 				return nil, err
 			}
-			cur.Reach = append(cur.Reach, &ReachClause{Nth: nth, Stmt: normText(stmt), Clause: c})
+			cur.Reach = append(cur.Reach, &ReachClause{Nth: nth, Stmt: normText(stmt), Clause: c, SetName: setName, SetExpr: setClause})
 		case "nopanic":
 			if err := needCur(); err != nil {
 				return nil, err
